@@ -1,5 +1,5 @@
 """registration half of C10: all 256 flag bytes x require_uv x require_up, authenticator data laid out as the flags announce"""
-from harness import fw, impl, regsim, regrun
+from harness import fw, impl, regsim, regrun, authsim
 
 
 def run_reg(chk, A, table_auth):
@@ -13,6 +13,12 @@ def run_reg(chk, A, table_auth):
                     s.ext = (None, b"\xa0", b"\xa1\x68credBlob\x58\x20" + bytes(32))[(f // 4 + ruv + rup) % 3]
                 pd, reg = regsim.build(s)
                 reg.attachment = (None, "platform", "cross-platform")[(f // 2 + ruv + 2 * rup) % 3]      # a client hint: no influence on any reported field
+                # the unauthenticated convenience copies of PublicKeyCredential.toJSON() (Level 3) claim other flags: only the SIGNED authenticator
+                # data inside the attestation object counts
+                import cbor2
+                real_ad = cbor2.loads(reg.att_obj)["authData"]
+                reg.extra_response_members = {"authenticatorData": authsim.b64u(real_ad[:32] + bytes([0x5D]) + real_ad[33:]), "publicKeyAlgorithm": -7,
+                                              "publicKey": authsim.b64u(b"not-the-key"), "transports": ["internal"]}
                 up, uv, be, bs, at = f & 1, f & 4, f & 8, f & 16, f & 64
                 exp = (bool(up) or not rup) and (bool(uv) or not ruv) and bool(at) and not (bs and not be)
                 il, ml = B.run_case(regrun.policy_of(pd), reg, "record" if f % 2 else "dict", "accept" if exp else "reject", f"create flags={f:#04x} uv_required={ruv} up_required={rup}", scn=s)
